@@ -29,6 +29,14 @@ func TestProbe(t *testing.T) {
 	if os.Getenv("VERIF_PROBE_STORE") == "csv" {
 		pairs = []lib.Pair{{K: "a", V: "x,y"}, {K: "b", V: "1,2,3"}, {K: "c", V: "q"}}
 	}
+	if raw := os.Getenv("VERIF_PROBE_PAIRS"); raw != "" {
+		// k=v;k=v
+		pairs = nil
+		for _, kv := range strings.Split(raw, ";") {
+			i := strings.Index(kv, "=")
+			pairs = append(pairs, lib.Pair{K: kv[:i], V: kv[i+1:]})
+		}
+	}
 	sc := bufio.NewScanner(f)
 	for sc.Scan() {
 		q := strings.TrimRight(sc.Text(), "\n")
